@@ -8,7 +8,8 @@ def L(steps, init, cubes=0, opb=0, nv=2, actset=0, **kw):
 
 _life_quick = [L(3, 0), L(3, 1, 1), L(3, 2), L(3, 2, 2, 1), L(4, 1), L(3, 1, 0, 2, nv=3), L(3, 1, 3), L(3, 0, 3)]
 _life_thorough = _life_quick + [L(4, 0, 1), L(4, 2), L(4, 2, 2, 1), L(4, 1, 1, 2, nv=3), L(5, 1, _time=2500), L(5, 0, 1, _time=2500), L(5, 2, 2, 1, _time=2500)]
-_derive_quick = [L(2, 1, nv=3, actset=1), L(2, 2, nv=3, actset=1), L(3, 0, nv=3, actset=1), L(2, 2, 1, nv=3, actset=1)]
+_derive_quick = [L(4, 1, nv=3, actset=1, SHAREDFN=None, PREFIX0=None, ACTMASK='0x93e0u'),   # project x2, both cofactors, apply x2, destroy, unary: one functor object used node-wise, then diagram-wise
+                 L(3, 1, nv=3, actset=1, SHAREDFN=None), L(2, 1, nv=3, actset=1), L(2, 2, nv=3, actset=1), L(3, 0, nv=3, actset=1), L(2, 2, 1, nv=3, actset=1)]
 _derive_thorough = _derive_quick + [L(3, 1, nv=3, actset=1), L(3, 2, nv=3, actset=1), L(3, 1, 1, nv=3, actset=1), L(3, 2, 2, nv=3, actset=1)]
 
 CHECKS = {
